@@ -191,7 +191,7 @@ def norm_shape():
             return 'note changes on render + parse'
         return ''
 
-    return Harness(body, [('n1', IntRange(0, 4)), ('k', IntRange(0, 4)), ('n2', IntRange(0, 4)), ('tail', 'bool')],
+    return Harness(body, [('n1', IntRange(0, 3)), ('k', IntRange(0, 3)), ('n2', IntRange(0, 3)), ('tail', 'bool')],
                    describe=lambda a: dict(a), bounds={'shape': "' '*n1 a NL ' '*k NL ' '*n2 b"})
 
 
